@@ -19,8 +19,8 @@ CLAIMED = {
             'Decides the partition/ownership/join clauses: for all 10 range-slicing dispatch loops (running-offset and closed-form block schemes) and every (rows, threads) pair up to the bound (thorough: rows 0..40 x threads 1..24, the property quantifier) the worker ranges start at 0, are contiguous, stay within the extent and end at it -- every row is processed by exactly one worker; workers write shared storage only at their own indices; condensed vectors have (n*n-n)/2 cells; threads are joined before their arguments are freed. Numeric agreement with the sequential kernels, metric axioms and bijectivity of the condensed index map are NOT decided.',
             'Trusted: clang AST; the recurrence extraction of the shape engine; worker contracts of lsv/contracts.json; square_to_condensed_index injective on i < k (assumption).',
             'DESIGN.md 2/E3, 3/C13'),
-    'C11': ('shape', 'other', 'symbolic extent/index abstract interpretation of every dense kernel under its frozen conformability contract (rejected-shape baseline), with callee contracts instantiated as caller obligations; three-valued obligations with shape witnesses',
-            'Decides the all-shapes memory/extent clause: for every shape admitted by the kernel\'s contract and own guards (including empty, single-row/column and non-square shapes) every subscript is in range, every internal call is conformable, and the two factors of every product term of a contraction use the same summation index; MatrixSort/MatrixReverseSort exchange whole rows exactly when a plain strict comparison of the keys finds them out of order (all pairs visited), so the result is a row permutation ordered by the key; no kernel applies an absolute tolerance to a data-scaled quantity outside the confirmed sites. The numeric value of the kernels, the algebraic laws and the coverage of the inner dimension by unrolled loop + tail are NOT decided.',
+    'C11': ('shape', 'other', 'symbolic extent/index abstract interpretation of every dense kernel under its frozen conformability contract (rejected-shape baseline), with callee contracts instantiated as caller obligations; three-valued obligations with shape witnesses; cell-form extraction with symbolic indices unified with the textbook definitions; sort-shape and tolerance rules',
+            'Decides the all-shapes memory/extent clause: for every shape admitted by the kernel\'s contract and own guards (including empty, single-row/column and non-square shapes) every subscript is in range, every internal call is conformable, and the two factors of every product term of a contraction use the same summation index; MatrixSort/MatrixReverseSort exchange whole rows exactly when a plain strict comparison of the keys finds them out of order (all pairs visited), so the result is a row permutation ordered by the key; no kernel applies an absolute tolerance to a data-scaled quantity outside the confirmed sites; and for 15 kernels (matrix-vector, vector-matrix, matrix-matrix plain and 4-way unrolled, outer product, transpose, trace, Frobenius norm, dot product, vector module, vector sum/difference, three tensor contractions) the cell form extracted with symbolic loop indices (output index, term, index domain) equals the textbook definition, i.e. in exact arithmetic and apart from the MISSING/NaN filters they compute their definition for every shape, including the coverage of the inner dimension by the unrolled loop and its remainder loop. Floating-point rounding, the values of the remaining kernels (covariance, correlations, descriptive statistics) and the algebraic laws as such are NOT decided.',
             'Trusted: clang AST; lsv/contracts.json (each precondition hand-confirmed with a reason); no aliasing between distinct parameters; LP64.',
             'DESIGN.md 2/E1, 3/C11'),
     'C12': ('shape', 'other', 'guard-dominance rule for pivots (division by a diagonal element must be tested or preceded by a pivot-row store), zeroed-output typestate for accumulating kernels, plus symbolic extent analysis of the LAPACK wrappers including the documented argument sizes of dgetrf/dgetri/dgesdd/dgeev',
